@@ -90,7 +90,7 @@ func (e *exec) fire(tm *Timer) {
 	default:
 		select {
 		case tm.c <- baseTime.Add(e.now):
-			cs := e.chanSt(chanPtr(tm.c))
+			cs := e.chanSt(chanPtr(tm.c), tm.c)
 			cs.q = append(cs.q, vc)
 		default:
 		}
@@ -139,7 +139,7 @@ func (tm *Timer) drain() {
 	select {
 	case <-tm.c:
 		if tm.e != nil && tm.e == ex {
-			cs := tm.e.chanSt(chanPtr(tm.c))
+			cs := tm.e.chanSt(chanPtr(tm.c), tm.c)
 			if len(cs.q) > 0 {
 				cs.q = cs.q[1:]
 			}
